@@ -606,9 +606,9 @@ def r7_plurality_veto_shape(ctx):
     good = len(sh) == 1 and astx.u(sh[0].args[0]) == "self.random_order" and len(ro) == 1 and astx.u(ro[0].value) == "list(range(int(profile.num_ballots)))" and ro[0].lineno < sh[0].lineno
     ctx.check(good, init, sh[0] if sh else init.node, "PluralityVeto: voter order = uniform shuffle of all voters", "", "voter order initialisation changed")
     ed = [n for n in astx.walk_own(init.node) if isinstance(n, ast.Assign) and astx.u(n.targets[0]) == "self.eliminated_dict"]
-    ctx.check(len(ed) == 1 and astx.u(ed[0].value) == "{c: False for c in profile.candidates}", init, ed[0] if ed else init.node, "PluralityVeto: nobody is eliminated at the start", "", "elimination table initialisation changed")
+    ctx.check(len(ed) == 1 and astx.u(ed[0].value) == astx.A("{c: False for c in profile.candidates}"), init, ed[0] if ed else init.node, "PluralityVeto: nobody is eliminated at the start", "", "elimination table initialisation changed")
     pi = [n for n in list(astx.walk_own(init.node)) + list(astx.walk_own(f.node)) if isinstance(n, ast.Assign) and astx.u(n.targets[0]) == "self.preference_index"]
-    ctx.check(len(pi) == 2 and all(astx.u(x.value) == "[len(ballot.ranking) - 1 if ballot.ranking else -1 for ballot in self.ballot_list]" for x in pi), f, pi[0] if pi else f.node,
+    ctx.check(len(pi) == 2 and all(astx.u(x.value) == astx.A("[len(ballot.ranking) - 1 if ballot.ranking else -1 for ballot in self.ballot_list]") for x in pi), f, pi[0] if pi else f.node,
               "PluralityVeto: a voter's veto position is the last position of their current ballot (-1 when exhausted), recomputed after every round", "", "preference_index computation changed")
 
 
